@@ -390,7 +390,9 @@ class C10(Prop):
                     exp = []
                     for ch in chroms:
                         for v in content[2]:
-                            if v[0] == ch[1] and v[1] < v[2] and v[1] < ch[2]:
+                            # the whole-chromosome read [0, len): kept iff 0 < end and start < len (zero-length values strictly
+                            # inside are kept), clipped to the chromosome
+                            if v[0] == ch[1] and v[2] > 0 and v[1] < ch[2]:
                                 exp.append((name_of[v[0]], v[1], min(v[2], ch[2]), struct.unpack("<f", struct.pack("<I", v[3]))[0]))
                 else:
                     tool = "bigbedtobed"
